@@ -38,18 +38,21 @@ CHECKS = {
             "accuracy in [0,1], zero-object play == 0 pp)",
             "covers game-reachable settings on generated realistic maps; NaN from formulas mirrored from lazer would still be reported"),
     "C10": ("runtime monitoring: cross-build differential execution, one seeded job list run by four separately built binaries "
-            "(default, raw_strains, sync, both), offline join of the result logs (numeric equality, -0 == 0)",
+            "(default, raw_strains, sync, both), offline join of the result logs (numeric equality, -0 == 0); maps include long dense ones "
+            "and mid-size maps built from rhythm phases (look-back windows of the skills end in a different phase)",
             "differential execution across builds; equality is numeric as the property states"),
     "C11": ("sanitizers + runtime monitoring: Miri under Stacked Borrows and Tree Borrows, AddressSanitizer (also over the C02/C05/C06 "
             "workloads), valgrind memcheck, debug assertions, and a Vec<f64> reference model checked after every StrainsVec operation",
             "Miri/ASan/memcheck see only the executions produced; verdict rule: Tree-Borrows UB, non-aliasing UB, sanitizer error or "
             "model mismatch = violation, Stacked-Borrows-only tag reports = advisory"),
     "C12": ("runtime monitoring: invariant oracle S1-S6 on generated score states over attribute shapes built from public struct "
-            "literals and random/hostile provided-field subsets",
+            "literals and random/hostile provided-field subsets; one request in four directly preceded on the same thread by the same request "
+            "for a neighbouring shape (history oracle)",
             "clause S3 binds only when the provided results fit, as the statement says; shapes are sampled"),
     "C13": ("runtime monitoring with a brute-force oracle: exhaustive enumeration of all small attribute shapes x misses x accuracy "
             "grid x priorities x origins, every generated state compared with the best of ALL hit-result distributions; large shapes sampled; "
-            "same oracle for plays specified on a map-based builder before try_mode/mode_or_ignore",
+            "same oracle for plays specified on a map-based builder before try_mode/mode_or_ignore; one request in three preceded on the same "
+            "thread by the same request for a shape differing in one count",
             "exhaustive over the stated small-shape space (evidence reports its size), exploration beyond; accuracy definition = the "
             "crate's public ScoreState::accuracy"),
     "C14": ("runtime monitoring: independent reference counts from public fields of the converted map + monotonicity / min(n,total) / "
@@ -62,14 +65,16 @@ CHECKS = {
             "with the reported rating (<= 4 ulp)",
             "aggregation re-implemented by the harness in the same operation order"),
     "C17": ("runtime monitoring: invariant oracles A1-A6 over a dense grid of builder configurations and attribute values, plus "
-            "differential comparison with the values stored by the calculators",
+            "differential comparison with the values stored by the calculators (one-shot, gradual first/last, performance-embedded, performance "
+            "configured through its own setters before/after the mode switch)",
             "mania's rate-quantised great window is exempt from inverse clock scaling (documented port of lazer)"),
     "C18": ("runtime monitoring: differential oracle over random setter programs (Performance setters vs Difficulty setters, "
-            "permutations, inspect round trip, clamps through inspect and through results, documented no-ops)",
+            "permutations, inspect round trip, clamps through inspect and through results, documented no-ops; setter programs split around the "
+            "mode switch of a builder started on the unconverted map)",
             "NaN arguments excluded"),
     "C19": ("runtime monitoring: invariant oracle on the fields of converted maps (sortedness, durations, strict control points, "
             "taiko sound pairing length, mania key count and raw column range, catch identity)",
-            "osu!standard sources from all generator profiles, key mods in three representations"),
+            "osu!standard sources from all generator profiles, key mods in all seven representations of the shared generator"),
     "C20": ("runtime monitoring + sanitizers: thread-pool run vs sequential run of the same job list with measured overlap, "
             "ThreadSanitizer (sync feature, instrumented std), hand-over chains of a gradual calculator through fresh threads and "
             "ping-pong over persistent threads, Miri "
